@@ -31,7 +31,7 @@ RULE_TEXT = ('runs = seeded random suites of 2..6 cases (disturbers: env in both
              'phases, sub-suite phases, preprocessor).')
 REACH_PROBES = ['suite_given_while_another_default_suite_stands_beside_the_case', 'launched_from_another_directory', 'case_files_are_symbolic_links', 'act_contents_without_header', 'case_with_own_conf_status', 'case_with_invalid_value_for_suite_instruction', 'stdin_disturbance',
                 'preprocessor_fails_for_one_case', 'suite_conf_status', 'suite_conf_actor', 'disturber_before_observer', 'disturber_ended_by_exception', 'disturber_ended_by_timeout',
-                'disturber_ended_by_hard_error', 'disturber_failing_cleanup', 'observer_foreign_symbol_reference',
+                'disturber_ended_by_hard_error', 'disturber_cannot_start_a_program_that_later_cases_start', 'disturber_failing_cleanup', 'observer_foreign_symbol_reference',
                 'observer_same_symbol_names', 'suite_phase_setup', 'suite_phase_before_assert', 'suite_phase_assert',
                 'suite_phase_cleanup', 'sub_suite_case', 'suite_preprocessor', 'mode_suite_run', 'mode_permuted',
                 'mode_explicit_suite_option', 'mode_beside_exactly_suite', 'timeout_none_disturbance',
@@ -56,7 +56,10 @@ DISTURBANCES = [
     ('file -rel-act junk-act.txt = "j"', ['noop']),
     ('stdin = "leaked-stdin"', ['noop']),
 ]
-ENDS = ['pass', 'pass', 'fail', 'hard', 'timeout', 'cleanupfail', 'exception', 'validation']
+ENDS = ['pass', 'pass', 'fail', 'hard', 'timeout', 'cleanupfail', 'exception', 'validation', 'cannot_start']
+
+
+SHARED_TOOL = 'shared-tool'
 
 
 def caseline(cid):
@@ -88,6 +91,19 @@ def gen_case(g, cid, force_kind=None):
     case['setup'].append({'k': 'real', 'text': 'def string CASEVAL = val-%s' % cid, 'fx': [['noop']]})
     case['setup'].append({'k': 'real', 'text': 'def string CASELINE = %d' % caseline(cid), 'fx': [['noop']]})
     case['setup'].append(probe('setup', observe=True))
+    # symbols of this case only, referenced from values of many types: what a parsed value says it refers to is that
+    # value's own business (a reference that leaks into the value of a later case is undefined there)
+    own = 'OWN_%s' % cid.upper()
+    for text in ('def string %s = own-%s' % (own, cid),
+                 'def list OWN_LIST = @[%s]@ second' % own,
+                 'def files-condition OWN_FC = { @[%s]@ : type file }' % own,
+                 'def file-matcher OWN_FM = name @[%s]@ && type file' % own,
+                 'def text-matcher OWN_SM = equals @[%s]@' % own,
+                 'def files-source OWN_FS = { file @[%s]@ = "contents" }' % own,
+                 'def text-transformer OWN_ST = replace a @[%s]@' % own,
+                 'def program OWN_PGM = %% own-program @[%s]@' % own,
+                 'def text-source OWN_TS = "text with @[%s]@"' % own):
+        case['setup'].append({'k': 'real', 'text': text, 'fx': [['noop']]})
     end = 'pass'
     if kind == 'disturber':
         picks = sorted(g.sample(range(len(DISTURBANCES)), g.randint(1, 7)))
@@ -106,6 +122,10 @@ def gen_case(g, cid, force_kind=None):
         if g.random() < 0.3:
             end = 'foreign_symbol'
     case['before-assert'].append(probe('before-assert'))
+    # every case runs the same program (named by the case): in a case that ends 'cannot_start' the OS refuses to start
+    # it (not found / not executable there and then) - which is nobody's business but that case's
+    case['before-assert'].append({'k': 'probe', 'id': SHARED_TOOL, 'form': '%', 'args': cid})
+    procs[SHARED_TOOL] = {'exit': 0}
     case['assert'].append(stub('assert'))
     case['assert'].append(probe('assert'))
     case['cleanup'].append(probe('cleanup'))
@@ -120,6 +140,8 @@ def gen_case(g, cid, force_kind=None):
         procs[it['id']] = {'exit': 0, 'duration': 'inf', 'expect_kill': True}
         case['before-assert'].append({'k': 'real', 'text': 'timeout = 2', 'fx': [['timeout', 2]]})
         case['before-assert'].append(it)
+    elif end == 'cannot_start':
+        procs[SHARED_TOOL] = {'exit': 0, 'spawn_error': g.choice(['ENOENT', 'EACCES', 'ENOEXEC'])}
     elif end == 'cleanupfail':
         it = probe('cleanup')
         procs[it['id']] = {'exit': 3}
@@ -380,9 +402,13 @@ def execute(plan, scratch):
                                  for c in cases if c.get('ppfail')]},
              'interp': {'exit': 0}}
     faults = []
+    cannot_start = []
     for c in cases + ([plan['sub']['case']] if plan['sub'] else []):
         procs.update(c['procs'])
         faults.extend(c['faults'])
+        if c['procs'].get(SHARED_TOOL, {}).get('spawn_error'):
+            cannot_start.append({'contains': ' ' + c['id'], 'spawn_error': c['procs'][SHARED_TOOL]['spawn_error']})
+    procs[SHARED_TOOL] = {'exit': 0, 'when_arg': cannot_start}  # one program name: it cannot be started for some cases
     for k in ('root', 'sub'):
         for ph in PHASES:
             procs['suite-%s-%s' % (k, ph)] = {'exit': 0}
@@ -511,6 +537,8 @@ def _probes(plan, hist):
                 pr['disturber_ended_by_timeout'] = 1
             if e == 'hard':
                 pr['disturber_ended_by_hard_error'] = 1
+            if e == 'cannot_start':
+                pr['disturber_cannot_start_a_program_that_later_cases_start'] = 1
             if e == 'cleanupfail':
                 pr['disturber_failing_cleanup'] = 1
             texts = [it.get('text', '') for it in c['case']['setup']]
